@@ -118,7 +118,9 @@ def reference(sc, files, saver=None):
     S, G, E, B = [], [], [], {}
     for j in range(T + 1):
         if j:
-            s.Step()
+            # algorithm options given as keywords (as Solve(adaptive=True) hands them to every Step): sticky, so a RESTORED
+            # solver -- continued with a plain Step() -- must go on with them
+            s.Step(**sc.get('opts', {}))
         if saver is not None:
             b = saver(s, j)
             if b is not None:
@@ -200,6 +202,8 @@ def _resume(sc, files):
     for k in sorted(B):
         if k > sc.get('kmax', 11):
             continue
+        if k == 0 and sc.get('opts'):
+            continue        # a checkpoint taken before the first Step cannot know options that were not given yet
         own = E2[k]
         bad = False
         for j in range(k + 1, T + 1):
@@ -297,10 +301,65 @@ def gen_units(tier, seed):
         sc = dict(st, solver=kind, setting=si, cost=cost or ['rosen', 'absum'][si % 2], ndim=ndim, seed=sd, path=path, freq=freq)
         if kind.startswith('DE'):
             sc['strategy'] = ['Best1Bin', 'Rand1Bin', 'Best1Exp', 'RandToBest1Exp', 'Best2Bin'][(si + ndim + sd) % 5]
+        if path in ('SaveSolver', 'periodic') and si % 2 == 1:
+            # non-default sticky options handed to every Step of the reference run, never to the restored solver
+            if kind == 'NM':
+                sc['opts'] = [{'adaptive': True}, {'radius': 0.2}][(si // 2) % 2]
+            elif kind == 'Powell':
+                sc['opts'] = [{'xtol': 1e-2}, {'imax': 20}][(si // 2) % 2]
+            elif kind in ('DE1', 'DE2'):
+                sc['opts'] = [{'CrossProbability': 0.5}, {'ScalingFactor': 0.6}][(si // 2) % 2]
         yield sc
+    for i, (kind, nested, freq) in enumerate(itertools.product(['lattice', 'buckshot'], ['NelderMeadSimplexSolver', 'PowellDirectionalSolver'],
+                                                                [None, 1] if tier == 'quick' else [None, 1, 3])):
+        yield dict(path='ensemble-dump', solver=kind, kind=kind, nested=nested, freq=freq, ndim=2, cost=['rosen', 'absum'][i % 2],
+                   seed=seed * 31 + i, setting='ensemble', bounds='box')
+
+
+def _ensemble_dump(sc, files):
+    """an ensemble run to completion with a registered restart file: the file it leaves behind (forced dump at the end of
+    Solve) restores to the solver as Solve left it -- same best, same counters, same monitors -- without continuing it"""
+    import mystic.solvers as ms
+    from mystic.termination import VTR, ChangeOverGeneration
+    seed_all(sc['seed'])
+    _COST[0] = sc['cost']
+    N[0] = 0
+    n = sc['ndim']
+    s = ms.LatticeSolver(n, nbins=(2,) + (1,) * (n - 1)) if sc['kind'] == 'lattice' else ms.BuckshotSolver(n, npts=3)
+    s.SetNestedSolver(getattr(ms, sc['nested']))
+    s.SetStrictRanges([-2.0] * n, [3.0] * n)
+    s.SetTermination(ChangeOverGeneration(1e-4, 5))
+    s.SetEvaluationLimits(generations=40)
+    fn = _tmp(files, '.pkl')
+    os.remove(fn)
+    s.SetSaveFrequency(sc['freq'], fn)
+    s.SetObjective(gcost)
+    s.Solve()
+    viol = []
+    if not os.path.exists(fn):
+        return {'violations': [('ensemble-leaves-a-restart-file', 'no file written by Solve with SetSaveFrequency(%r, file)' % (sc['freq'],), 0)],
+                'cases': [(0, 0, True)], 'dumps': []}
+    r = ms.LoadSolver(fn)
+    a, b = snap(r), snap(s)
+    d = [k for k in diff(a, b) if k in ('bestSolution', 'bestEnergy', 'generations', 'evaluations', 'energy_history', 'solution_history',
+                                        'population', 'popEnergy', '_stepmon', '_evalmon', '._bestEnergy', '._total_evals')]
+    if d:
+        viol.append(('restart-file-of-a-finished-ensemble-holds-its-final-state', _show(a, b, d), 0))
+    return {'violations': viol, 'cases': [(0, 1, bool(viol))], 'dumps': [0]}
 
 
 def _work(sc):
+    if sc.get('path') == 'ensemble-dump':
+        files = []
+        try:
+            with contextlib.redirect_stdout(io.StringIO()):
+                return {'sc': sc, 'r': _ensemble_dump(sc, files)}
+        except Exception as e:      # noqa -- harness / scenario failure is not a violation of C06
+            return {'sc': sc, 'r': {'violations': [], 'cases': [], 'dumps': [], 'aborted': '%s: %s' % (type(e).__name__, e)}}
+        finally:
+            for name in files:
+                if os.path.exists(name):
+                    os.remove(name)
     return {'sc': sc, 'r': run_unit(sc)}
 
 
@@ -311,7 +370,9 @@ def run(tier='quick', seed=0):
                       'SetSaveFrequency 1/2/3 dump->LoadSolver, independence of deepcopy/dill/LoadSolver copies) x EVERY '
                       'boundary k = 0..11 (generation <= 10) of a %d-step reference run; generator states of the boundary are '
                       'reinstated; full state (public attributes, monitors, every numeric __dict__ entry) compared after every '
-                      'further step; one case = one (unit, boundary); non-trivial = continued >= 1 step' % T,
+                      'further step; one case = one (unit, boundary); non-trivial = continued >= 1 step; plus ensembles (lattice / '
+                      'buckshot over NM / Powell) run to completion with a registered restart file: LoadSolver(file) equals the '
+                      'finished solver' % T,
                  bound='%d units x <= 12 boundaries, %d-step runs, dims %s' % (len(units), T, '2' if tier == 'quick' else '2-3'))
     for out in pmap(_work, units):
         sc, r = out['sc'], out['r']
@@ -327,4 +388,6 @@ def run(tier='quick', seed=0):
 
 
 def replay(inp):
+    if inp.get('path') == 'ensemble-dump':
+        return not _work(inp)['r']['violations']
     return not run_unit(inp)['violations']
